@@ -247,10 +247,10 @@ func (k Keeper) LiquidateBorrows(ctx sdk.Context, offsetCounterId uint64) error 
 	}
 	newBorrowIDs := borrowIDs[start:end]
 	for l := range newBorrowIDs {
-		err := k.LiquidateIndividualBorrow(ctx, newBorrowIDs[l], "", false)
-		if err != nil {
-			return err
-		}
+		borrowID := newBorrowIDs[l]
+		_ = utils.ApplyFuncIfNoError(ctx, func(ctx sdk.Context) error {
+			return k.LiquidateIndividualBorrow(ctx, borrowID, "", false)
+		})
 	}
 	liquidationOffsetHolder.CurrentOffset = uint64(end)
 	liquidationOffsetHolder.AppId = offsetCounterId
